@@ -1,6 +1,7 @@
 import LcmProofs.Laws
 import LcmProofs.FiniteHorizon
 import LcmProofs.AffineInstance
+import LcmProofs.StationarySolve
 import LcmProps.Examples
 namespace Lcm
 
@@ -157,5 +158,22 @@ theorem C11_affine_solve_rel {m m' : Model} {P : Params} {a b : Rat} (h : Affine
 example : RowsSumToOne Ex.consParams := by intro xa hxa; simp [Ex.consParams] at hxa
 #guard ((solve (withAffineUtility Ex.consModel 2 3) Ex.consParams).map (·.toFlat))
   == ((solve Ex.consModel Ex.consParams).zipIdx.map fun (V, t) => V.toFlat.map (Ext.affine 2 (3 * geo (1/2) (3 - t))))
+
+
+/-! ## Horizon invariance for the executable `solve` itself -/
+
+/-- if no function takes `_period` as an argument, the array `solve` returns `j` periods before the end is the same
+for the horizons `T = m.nPeriods` and `T'` - whole arrays, every layout, continuation by interpolation and expectation
+included (`LcmProofs/StationarySolve.lean`: the objective, the filter mask and hence the state-choice space do not
+depend on the period index; induction over `j`) -/
+theorem C11_stationary_solve (m : Model) (h : NoPeriod m) (P : Params) (T' : Nat) (j : Nat)
+    (hj : j < m.nPeriods) (hj' : j < T') :
+    (solve (withHorizon m T') P true).getD (T' - 1 - j) default = (solve m P true).getD (m.nPeriods - 1 - j) default :=
+  solve_horizon h P T' j hj hj'
+
+-- non-vacuity: the consumption example reads no period; horizon 5 against horizon 3, last three periods
+#guard Ex.consModel.functions.all fun f => !f.args.contains "_period"
+#guard (((solve (withHorizon Ex.consModel 5) Ex.consParams).drop 2).map (·.toFlat))
+  == ((solve Ex.consModel Ex.consParams).map (·.toFlat))
 
 end Lcm
